@@ -427,6 +427,57 @@ def check(run):
         run.check(q.any_precedes(r1, mine, c), 'R4', 'counted-before-dispatch', '%s: %s' % (C + '::on_request1', (q.callee_name(c) or '').split('::')[-1]), r1.loc(c),
                   'a request is dispatched on a path that did not count it', 'an increment dominates the dispatch')
     run.notes.append('sinks analysed: %d' % nsink)
+    run.clause('the UDP relay keeps relaying: every path of on_read_udp that handled (or dropped) a datagram re-arms async_receive_from with on_read_udp; only the receive-error path may return without')
+    oru = fx.fn1(C + '::on_read_udp')
+    run.touch(oru)
+
+    def _is_rearm(g_, c):
+        return (q.callee_name(c) or '').endswith('udp::socket::async_receive_from') and 'on_read_udp' in q.render(g_, c)
+    rearm = [c for c in oru.calls() if _is_rearm(oru, c)]
+    for c in oru.calls():       # a call of a local lambda whose body re-arms (drop_truncated())
+        if '::operator()' in (c.get('callee') or '') or 'on_read_udp(' in (q.callee_name(c) or ''):
+            lam = fx.by_usr(c.get('usr')) if c.get('usr') else None
+            if lam and any(_is_rearm(lam[0], x) for x in lam[0].calls()):
+                rearm.append(c)
+    if not rearm:
+        run.broke('on_read_udp: no re-arm of async_receive_from found')
+    stuck = q.exit_reachable_under(oru, None, rearm, lambda atom: {'ec': False}.get(q.render(oru, q.strip_casts(atom))))
+    run.check(not stuck, 'R10', 'udp-relay-rearmed', oru.norm, oru.loc(),
+              'with no receive error (ec false) a path through on_read_udp returns without re-arming async_receive_from: after a datagram handled on that path (e.g. one addressed to a host name that is already cached) the relay never receives again - later datagrams in both directions are silently lost',
+              'every path with ec false passes a re-arm (%d sites)' % len(rearm))
+    run.clause('a datagram waiting for its name lookup owns its bytes: no closure handed to an asynchronous operation captures a buffer VIEW, pointer or reference into the connection\'s receive buffers (they are re-armed for the next datagram before the closure runs)')
+    nlam = 0
+    for fn in [f_ for f_ in fx.repo_functions() if f_.file.endswith('socks_server.cpp')]:
+        for c in fn.calls():
+            nm = (q.callee_name(c) or '').split('<')[0].split('::')[-1]
+            if not (nm.startswith('async_') or nm in ('post', 'dispatch', 'defer')):
+                continue
+            for a_ in c.get('args', []):
+                for lam in [x for x in walk(a_) if x['k'] == 'lambda']:
+                    nlam += 1
+                    run.touch(fn)
+                    bad = [(n_, k_, t_) for n_, k_, t_ in handlers.nonowning_captures(fn, lam) if k_ != 'this']
+                    run.check(not bad, 'R15', 'closure-owns-payload', '%s: lambda -> %s' % (q.top_function(fx, fn).norm, nm), fn.loc(lam),
+                              'the closure handed to %s captures %s: it refers to storage (the shared receive buffer) that is re-used before the closure runs - a datagram arriving during the name lookup overwrites the payload that is about to be forwarded'
+                              % (nm, ', '.join('%s (%s %s)' % b for b in bad)), 'captures own their data')
+    if nlam < 1:
+        run.broke('socks_server.cpp: no lambda handed to an asynchronous operation found (the UDP host-name path used one)')
+    run.clause('closing a connection releases everything it listens or is connected on: close_connection() closes every TCP socket and acceptor member on every path (an abandoned BIND must not keep its port and accept the next peer into a dead session)')
+    cc = fx.fn1(C + '::close_connection')
+    run.touch(cc)
+    nsock = 0
+    for f_ in fx.record(C)[0]['fields']:
+        ct_ = f_.get('cty') or f_['ty']
+        if ct_ not in ('sim::asio::ip::tcp::socket', 'sim::asio::ip::tcp::acceptor'):
+            continue
+        nsock += 1
+        ev_close = lambda g_, nm=f_['name']: [c for c in g_.calls() if (q.callee_name(c) or '').split('::')[-1] == 'close' and q.render(g_, c.get('obj')) == nm]
+        sites_ = q.sites(cc, ev_close)
+        run.check(bool(sites_) and q.on_all_paths(cc, sites_), 'R7', 'close-releases', '%s closes %s' % (cc.norm, f_['name']), cc.loc(),
+                  'close_connection() does not close %s on every path: when the client goes away the %s stays open with its handlers pending - a BIND listener keeps its port (later BINDs of that port fail with "address in use") and accepts the peer into a session nobody reads'
+                  % (f_['name'], 'acceptor' if 'acceptor' in ct_ else 'socket'), 'closed on every path')
+    if nsock < 3:
+        run.broke('socks_connection: fewer than 3 TCP socket/acceptor members found (%d)' % nsock)
     run.clause('no length test or scan is bounded by a signed difference converted to unsigned (a short message must fail the test, not wrap it)')
     nsd = engines.signed_difference_compares(run, [f_ for f_ in fx.repo_functions(raw=True) if f_.file.endswith('socks_server.cpp') and f_.cfg is not None])
     run.ok('R11', 'unsigned-compare-of-difference', 'scan', '', 'relational comparisons with a signed operand converted to unsigned in socks_server.cpp: %d' % nsd, nontrivial=False)
